@@ -15,7 +15,7 @@ def table(J):
         "C12": [J("TestC12", checks=(8000, 60000), shards=(4, 16))],
         "C13": [J("TestC13", checks=(8000, 60000), shards=(4, 16))],
         "C14": [J("TestC14Cold", race=True, shards=(6, 16)), J("TestC14Xid", race=True, shards=(1, 4)), J("TestC14Batch", race=True, checks=(60, 500), shards=(2, 8)), J("TestC14Xid", shards=(1, 8))],
-        "C15": [J("TestC15", checks=(4000, 60000), shards=(1, 4)), J("TestC15Words", shards=(4, 16)), J("TestC15Race", race=True, shards=(1, 4))],
+        "C15": [J("TestC15", checks=(4000, 60000), shards=(1, 4)), J("TestC15Words", shards=(4, 16)), J("TestC15Race", race=True, shards=(1, 4)), J("TestC15Race", shards=(4, 16))],
         "C16": [J("TestC16"), J("TestC16Histories", checks=(4000, 60000), shards=(1, 8))],
         "C19": [J("TestC19", checks=(20000, 300000), shards=(2, 16))],
         "C17": [J("TestC17", checks=(30000, 300000), shards=(2, 16))],
